@@ -469,6 +469,8 @@ type Contract struct {
 	Props     []string
 	Requires  []Clause
 	Ensures   []Clause
+	Rely []Clause
+	ExitEnsures []Clause // atomic mode: clauses about the action log, evaluated at exit
 	PanicsIff *Clause
 	OnPanic   []Clause
 	Assigns   []string
@@ -512,6 +514,7 @@ type Axiom struct {
 	Body   *Expr
 	Pkg    string
 	Auto   bool // asserted globally as a quantified axiom (with triggers if given)
+	Prop   string
 }
 
 type TypeInv struct {
@@ -538,6 +541,7 @@ type GhostVar struct {
 type ContractSet struct {
 	Pairs     []Pair
 	Bounded   []BoundedCheck
+	Lemmas    []*Axiom
 	GhostVars map[string]*GhostVar
 	Funcs     map[string]*Contract // key: pkgname + "." + Key
 	SpecFuncs map[string]*SpecFunc
@@ -553,7 +557,7 @@ func NewContractSet() *ContractSet {
 }
 
 var clauseKeywords = map[string]bool{
-	"func": true, "requires": true, "ensures": true, "panics_iff": true, "on_panic": true,
+	"func": true, "requires": true, "ensures": true, "exit_ensures": true, "rely": true, "panics_iff": true, "on_panic": true,
 	"assigns": true, "loop": true, "inline": true, "trusted": true, "classes": true, "pure": true,
 	"property": true, "spec": true, "axiom": true, "lemma": true, "type": true, "let": true, "mode": true,
 	"opt": true, "ghost": true, "callback": true, "pair": true, "ghostvar": true, "rangecall": true, "implements": true, "bounded": true,
@@ -670,13 +674,13 @@ func (cs *ContractSet) parseFile(path string) error {
 		}
 		// optional label:  ensures[name] expr
 		label := ""
-		if strings.HasPrefix(rest, "[") && (kw == "ensures" || kw == "requires" || kw == "on_panic") {
+		if strings.HasPrefix(rest, "[") && (kw == "ensures" || kw == "requires" || kw == "on_panic" || kw == "exit_ensures") {
 			if j := strings.Index(rest, "]"); j > 0 {
 				label = rest[1:j]
 				rest = strings.TrimSpace(rest[j+1:])
 			}
 		}
-		if strings.HasPrefix(kw, "ensures[") || strings.HasPrefix(kw, "requires[") || strings.HasPrefix(kw, "on_panic[") {
+		if strings.HasPrefix(kw, "ensures[") || strings.HasPrefix(kw, "requires[") || strings.HasPrefix(kw, "on_panic[") || strings.HasPrefix(kw, "exit_ensures[") {
 			j := strings.Index(kw, "[")
 			label = strings.TrimSuffix(kw[j+1:], "]")
 			kw = kw[:j]
@@ -706,6 +710,26 @@ func (cs *ContractSet) parseFile(path string) error {
 				return fail("property outside func")
 			}
 			cur.Props = append(cur.Props, strings.Fields(strings.ReplaceAll(rest, ",", " "))...)
+		case "rely":
+			// rely <expr>: an invariant of the shared abstract state that every goroutine maintains: assumed after
+			// every interference, and re-established (obligation `guarantee`) by each of this method's own actions
+			if cur == nil {
+				return fail("rely outside func")
+			}
+			e, err := parse(rest)
+			if err != nil {
+				return err
+			}
+			cur.Rely = append(cur.Rely, Clause{E: e, Src: rest})
+		case "exit_ensures":
+			if cur == nil {
+				return fail("exit_ensures outside func")
+			}
+			e, err := parse(rest)
+			if err != nil {
+				return err
+			}
+			cur.ExitEnsures = append(cur.ExitEnsures, Clause{Label: label, E: e, Src: rest})
 		case "requires", "ensures", "on_panic":
 			if cur == nil {
 				return fail("%s outside func", kw)
@@ -871,7 +895,17 @@ func (cs *ContractSet) parseFile(path string) error {
 			}
 			sf.Pkg = pkg
 			cs.SpecFuncs[sf.Name] = sf
-		case "axiom", "lemma":
+		case "lemma":
+			// lemma <property> name(a int, b bool): body   -- a closed formula proved on its own (no code involved)
+			prop, r2 := splitWord(rest)
+			ax, err := parseAxiom(r2)
+			if err != nil {
+				return fail("%v", err)
+			}
+			ax.Pkg = pkg
+			ax.Prop = prop
+			cs.Lemmas = append(cs.Lemmas, ax)
+		case "axiom":
 			// axiom name(a T, k int): body
 			ax, err := parseAxiom(rest)
 			if err != nil {
